@@ -576,7 +576,7 @@ def _reals_obs(statements):
     for st in statements:
         if type(st).__name__ != 'CreateInstanceStmt':
             continue
-        for v in st.values:
+        for v in gen_schema.field(st, 'values', []):
             if isinstance(v, str) and _real_comparable(v):
                 try:
                     neg, micro = gen_schema.dec6_parts(float(v))
@@ -632,21 +632,21 @@ def run_impl(case):
     accepted = []
     for k, text in enumerate(texts):
         before = _deep(loader.statements)
-        ident = loader.statements
         t0 = time.process_time()
         try:
             loader.input(text)
             outs.append(Sym('accepted'))
             accepted.append(text)
-            # an accepted text is applied completely: one statement per top-level semicolon
+            # an accepted text is applied completely: one statement per top-level semicolon, after the old CONTENT (the property
+            # speaks about the loader's accumulated content, not about the identity of the list object)
             added = len(loader.statements) - len(before)
-            if added != top_level_semicolons(text) or loader.statements is not ident or _deep(loader.statements[:len(before)]) != before:
+            if added != top_level_semicolons(text) or _deep(loader.statements[:len(before)]) != before:
                 fail('accepted-text-not-applied', 'text %d %r was accepted and has %d statements, but loader.statements grew '
                      'by %d' % (k, text[:300], top_level_semicolons(text), added))
         except x.ParsingException:
             outs.append(Sym('parsing'))
             after = _deep(loader.statements)
-            if after != before or loader.statements is not ident:
+            if after != before:
                 fail('rejected-input-changed-statements', 'text %d %r was rejected but loader.statements changed from %d to %d '
                      'entries' % (k, text[:200], len(before), len(after)))
         except Exception as e:
@@ -680,13 +680,15 @@ def run_impl(case):
     if outcome == 'builtin':
         # no known finding is left for C12 (the `__x__` names are rejected with MetaModelException since 7fb506e): every
         # built-in exception is a failure
-        if any(type(s).__name__ == 'CreateAssociationStmt' and len(s.source_keys) != len(s.target_keys)
+        if any(type(s).__name__ == 'CreateAssociationStmt' and len(gen_schema.field(s, 'source_keys', [])) != len(gen_schema.field(s, 'target_keys', []))
                for s in loader.statements):
             fail('build-builtin:rop-key-count-mismatch', 'build_metamodel raised %s (%s) for input with a CREATE ROP whose key '
                  'lists differ in length: %r' % (type(exc).__name__, str(exc)[:120], [t[:400] for t in accepted]))
         else:
             fail('build-builtin:%s' % type(exc).__name__, 'build_metamodel raised %s: %s for accepted texts %r' % (
                 type(exc).__name__, str(exc)[:200], [t[:400] for t in accepted]))
+    if gen_schema.OBS_UNAVAILABLE:
+        stats['observation_unavailable'] = 1          # an internal field of a statement class is gone: marker instead of a crash
     stats['build_' + outcome] = 1
     stats['statements'] = len(stmts)
     # a fresh loader that never saw the rejected texts
